@@ -207,3 +207,124 @@ package composite
 //@   invariant loop 1 [C06]: m != nil && (forall j int :: 0 <= j && j <= rangeindex && A[j].UpdateStrategy != nil && A[j].UpdateStrategy.Method != v1alpha1.ChildUpdateOnDelete ==> m[resources.Get(A[j].APIVersion, A[j].Resource).Kind + "." + fst(common.ParseAPIVersion(A[j].APIVersion))] != nil)
 //@   ensures [C06] err == nil ==> m != nil && (forall j int :: 0 <= j && j < len(A) && A[j].UpdateStrategy != nil && A[j].UpdateStrategy.Method != v1alpha1.ChildUpdateOnDelete ==> m[resources.Get(A[j].APIVersion, A[j].Resource).Kind + "." + fst(common.ParseAPIVersion(A[j].APIVersion))] != nil)
 //@   // the value stored is the rule's own strategy unless a later rule has the same key (last rule wins): not claimed, the nested quantifier makes the obligation slow
+// ---- C20: hosted controllers follow their CompositeController objects ----
+
+//@ pred runningPC(pc) = pc != nil && pc.cc != nil && pc.stopCh != nil && pc.doneCh != nil && pc.queue != nil && pc.eventRecorder != nil
+
+//@ pred hostedOK(mc) = mc != nil && mc.parentControllers != nil && mc.eventRecorder != nil && mc.k8sClient != nil && mc.resources != nil && mc.dynClient != nil && mc.dynClient.resources != nil && mc.dynClient.dc != nil && mc.mcClient != nil && mc.revisionLister != nil && mc.ssaOptions != nil && factoryInv(mc.dynInformers) && (forall k string :: has(mc.parentControllers, k) ==> runningPC(mc.parentControllers[k]))
+
+// Stop: signal the workers, shut the queue down, wait for them, then release every informer subscription exactly once.
+//@ pred childInformersStoppable(pc) = forall k schema.GroupVersionResource :: has(pc.childInformers, k) ==> validInformer(pc.childInformers[k])
+
+//@ func parentController.Stop(pc) ()
+//@   requires validRM0(pc.customize)
+//@   requires factoryInv(pc.customize.dynInformers)
+//@   requires validRMInf(pc.customize)
+//@   requires childInformersStoppable(pc)
+//@   requires runningPC(pc) && validPC(pc) && !closed(pc.stopCh)
+//@   safety C13,C20 closechan
+//@   bind loop 1: ck, inf
+//@   at ShutDown(q) [C20]: q == pc.queue && closed(pc.stopCh)
+//@   at informerWrapper.RemoveEventHandlers(iw) [C20,C18]: called(ShutDown) && (iw == pc.parentInformer.informerWrapper || (has(pc.childInformers, ck) && iw == pc.childInformers[ck].informerWrapper))
+//@   at ResourceInformer.Close(ri) [C20,C18]: called(ShutDown) && (ri == pc.parentInformer || (has(pc.childInformers, ck) && ri == pc.childInformers[ck])) && count(ResourceInformer.Close) == count(informerWrapper.RemoveEventHandlers)
+//@   at Manager.Stop(rm) [C20]: rm == pc.customize && count(ResourceInformer.Close) == len(pc.childInformers) + 1
+//@   invariant loop 1 [C20,C18]: count(ResourceInformer.Close) == iters(1) && count(informerWrapper.RemoveEventHandlers) == iters(1) && called(ShutDown) && closed(pc.stopCh)
+//@   invariant loop 1 [C20,C18]: forall k schema.GroupVersionResource :: has(pc.childInformers, k) && !visited(1, k) ==> validInformer(pc.childInformers[k])
+//@   invariant loop 1 [C20,C18]: validInformer(pc.parentInformer)
+//@   invariant loop 1 [C20,C18]: validRM0(pc.customize)
+//@   invariant loop 1 [C20,C18]: factoryInv(pc.customize.dynInformers)
+//@   invariant loop 1 [C20,C18]: validRMInf(pc.customize)
+//@   noexit loop 1 [C20,C18]
+//@   ensures [C20] closed(pc.stopCh) && count(ShutDown) == 1 && count(Manager.Stop) == 1
+//@   ensures [C20,C18] count(ResourceInformer.Close) == len(pc.childInformers) + 1 && count(informerWrapper.RemoveEventHandlers) == len(pc.childInformers) + 1
+
+// Start (its sequential part; the worker goroutine it spawns is outside the sequential model): fresh open channels, the
+// customize manager gets the stop channel, one handler registration on the parent informer and one on every child informer.
+//@ func parentController.Start(pc) ()
+//@   requires validPC(pc) && childInformersStoppable(pc)
+//@   safety C13,C20
+//@   noexit loop 1 [C20,C14]
+//@   bind loop 1: ck, inf
+//@   at Manager.Start(rm, ch) [C20]: rm == pc.customize && ch == pc.stopCh && ch != nil
+//@   invariant loop 1 [C20,C14]: count(informerWrapper.AddEventHandler) + count(informerWrapper.AddEventHandlerWithResyncPeriod) == iters(1) + 1
+//@   ensures [C20] pc.stopCh != nil && pc.doneCh != nil && !closed(pc.stopCh)
+//@   ensures [C20,C14] count(informerWrapper.AddEventHandler) + count(informerWrapper.AddEventHandlerWithResyncPeriod) == len(pc.childInformers) + 1
+//@   ensures [C20] count(Manager.Start) == 1 && pc.customize.stopCh == pc.stopCh
+
+//@ func newParentController(resources, dynClient, dynInformers, eventRecorder, mcClient, revisionLister, cc, numWorkers, ssaOptions, logger) (pc, newErr)
+//@   requires cc != nil && eventRecorder != nil && resources != nil && dynClient != nil && dynClient.resources != nil && dynClient.dc != nil && mcClient != nil && revisionLister != nil && ssaOptions != nil && factoryInv(dynInformers)
+//@   safety C13,C20
+//@   bind loop 1: ci, child
+//@   // every subscription opened is tracked: none is overwritten in the map (a lost entry is never closed, neither on failure nor by Stop)
+//@   at InformerMap.Set#1(m, k, v) [C20]: !has(m, k) && v != nil
+//@   invariant loop 1 [C20]: cur(childInformers) != nil && (forall k schema.GroupVersionResource :: has(cur(childInformers), k) ==> validInformer(cur(childInformers)[k]))
+//@   invariant loop 1 [C20]: factoryInv(dynInformers) && validInformer(parentInformer)
+//@   ensures [C20] newErr != nil ==> pc == nil
+//@   ensures [C20] newErr == nil ==> pc != nil && pc.cc == cc && pc.queue != nil && pc.eventRecorder == eventRecorder && fresh(pc)
+//@   ensures [C20] newErr == nil ==> validInformer(pc.parentInformer) && childInformersStoppable(pc) && factoryInv(dynInformers)
+//@   ensures [C20] newErr == nil ==> pc.customize != nil && pc.finalizer != nil && pc.syncHook != nil && pc.finalizeHook != nil && pc.parentSelector != nil
+//@   ensures [C20,C13] newErr == nil ==> validPC(pc)
+
+// the deferred cleanup: when the constructor fails, every informer it opened so far (all of them tracked in the map) is closed
+//@ func newParentController$1() ()
+//@   requires *childInformers != nil && validInformer(*parentInformer) && (forall k schema.GroupVersionResource :: has(*childInformers, k) ==> validInformer((*childInformers)[k]))
+//@   safety C13,C20
+//@   noexit loop 1 [C20]
+//@   invariant loop 1 [C20]: count(ResourceInformer.Close) == iters(1)
+//@   ensures [C20] *newErr != nil ==> count(ResourceInformer.Close) == len(*childInformers) + 1
+//@   ensures [C20] *newErr == nil ==> !called(ResourceInformer.Close)
+
+// Representation invariant of every hosted (started) controller, as needed by Stop. It is established by the constructor and Start and
+// is ASSUMED at the entry of the reconcilers for the one instance they may stop (not re-proved on exit: Start is outside the sequential model).
+//@ pred hostedStop1(mc, name) = has(mc.parentControllers, name) ==> validRM0(mc.parentControllers[name].customize)
+//@ pred hostedStop2(mc, name) = has(mc.parentControllers, name) ==> factoryInv(mc.parentControllers[name].customize.dynInformers)
+//@ pred hostedStop3(mc, name) = has(mc.parentControllers, name) ==> validRMInf(mc.parentControllers[name].customize)
+//@ pred hostedStop5(mc, name) = has(mc.parentControllers, name) ==> childInformersStoppable(mc.parentControllers[name])
+//@ pred hostedStop7(mc, name) = has(mc.parentControllers, name) ==> validPC(mc.parentControllers[name]) && !closed(mc.parentControllers[name].stopCh)
+
+//@ func Metacontroller.reconcileCompositeController(mc, cc) (err)
+//@   requires hostedStop1(mc, cc.Name)
+//@   requires hostedStop2(mc, cc.Name)
+//@   requires hostedStop3(mc, cc.Name)
+//@   requires hostedStop5(mc, cc.Name)
+//@   requires hostedStop7(mc, cc.Name)
+//@   requires hostedOK(mc) && cc != nil
+//@   safety C13,C20
+//@   let name = cc.Name
+//@   let was = old(has(mc.parentControllers, name))
+//@   let oldpc = old(mc.parentControllers[name])
+//@   bind call newParentController: npc, nerr
+//@   bind call DeepEqual: same
+//@   at parentController.Stop(p) [C20]: was && p == oldpc && !same && !called(newParentController)
+//@   at newParentController(r, dc, di, er, mcc, rl, c, nw, so, lg) [C20]: c == cc && (was ==> called(parentController.Stop)) && count(newParentController) == 1
+//@   at parentController.Start(p) [C20]: called(newParentController) && nerr == nil && p == npc && count(parentController.Start) == 1
+//@   ensures [C20] was && same ==> err == nil && !called(parentController.Stop) && !called(newParentController) && !called(parentController.Start) && mc.parentControllers[name] == oldpc && has(mc.parentControllers, name)
+//@   ensures [C20] was && !same ==> count(parentController.Stop) == 1
+//@   ensures [C20] !(was && same) ==> count(newParentController) == 1
+//@   ensures [C20] called(newParentController) && nerr != nil ==> err != nil && !has(mc.parentControllers, name) && !called(parentController.Start)
+//@   ensures [C20] called(newParentController) && nerr == nil ==> err == nil && has(mc.parentControllers, name) && mc.parentControllers[name] == npc && count(parentController.Start) == 1
+//@   ensures [C20] forall k string :: k != name ==> has(mc.parentControllers, k) == old(has(mc.parentControllers, k)) && mc.parentControllers[k] == old(mc.parentControllers[k])
+
+// Reconcile: object gone => stop and forget the instance; read error or parent CRD without status subresource => nothing is
+// started or stopped; otherwise the state machine of reconcileCompositeController for the object that was read.
+//@ func Metacontroller.Reconcile(mc, ctx, request) (res, err)
+//@   requires hostedStop1(mc, request.Name)
+//@   requires hostedStop2(mc, request.Name)
+//@   requires hostedStop3(mc, request.Name)
+//@   requires hostedStop5(mc, request.Name)
+//@   requires hostedStop7(mc, request.Name)
+//@   requires hostedOK(mc)
+//@   safety C13,C20
+//@   let name = request.Name
+//@   let was = old(has(mc.parentControllers, name))
+//@   let oldpc = old(mc.parentControllers[name])
+//@   bind call Get: getErr
+//@   bind call HasStatusSubresource: hasStatus
+//@   bind call Metacontroller.reconcileCompositeController: recErr
+//@   at parentController.Stop(p) [C20]: count(Get) == 1 && IsNotFound(getErr) && was && p == oldpc
+//@   at Metacontroller.reconcileCompositeController(m, c) [C20]: m == mc && c != nil && c.Name == name && hasStatus && !called(parentController.Stop)
+//@   ensures [C20] count(Get) >= 1 && IsNotFound(getErr) && count(Get) == 1 ==> err == nil && !has(mc.parentControllers, name) && !called(Metacontroller.reconcileCompositeController) && (was ==> count(parentController.Stop) == 1)
+//@   ensures [C20] !was ==> !called(parentController.Stop)
+//@   ensures [C20,C12] called(Metacontroller.reconcileCompositeController) ==> err == recErr
+//@   ensures [C20] !called(Metacontroller.reconcileCompositeController) ==> (forall k string :: k != name ==> has(mc.parentControllers, k) == old(has(mc.parentControllers, k)) && mc.parentControllers[k] == old(mc.parentControllers[k]))
+//@   ensures [C20] !called(Metacontroller.reconcileCompositeController) && !called(parentController.Stop) ==> has(mc.parentControllers, name) == was && mc.parentControllers[name] == oldpc
